@@ -387,8 +387,10 @@ def run_calckick(ctx, cases, dis):
                 if abs(io[x] - mo[x]) > tol:
                     bad = dict(x=x, impl=float(io[x]), model=float(mo[x]), tol=float(tol))
                     break
-            if bad is None and any(v != 0 for v in io[c.n:]):
-                bad = dict(what="entries beyond _xsize written", impl=[float(v) for v in io[c.n:c.n + 4]])
+            # since the repo's fix 072b56b every bunch's block carries the same RF field (bit for bit)
+            if bad is None and any(io[k] != io[k % c.n] for k in range(c.n, len(io))):
+                k = next(k for k in range(c.n, len(io)) if io[k] != io[k % c.n])
+                bad = dict(what="block of bunch %d differs from block 0" % (k // c.n), impl=[float(io[k]), float(io[k % c.n])])
         if bad:
             dis.append(dict(case=case, detail=bad, sig=dict(kind="calckick", stage="correspondence", model=md)))
         ctx.case_done(("calckick", c.cid), any(v != 0 for v in io))
